@@ -82,3 +82,89 @@ theorem scanDir_no_end (l : List Slot) (h : ∀ s ∈ l, s.b 0 ≠ 0) :
   scanSlots_no_end l [] {} h
 
 end FatVerif.Spec
+
+/-! ## what a long-name run the oracles accept looks like -/
+
+namespace FatVerif.Spec
+
+theorem ordersDescend_spec : ∀ (l : List Slot) (n : Nat), ordersDescend l n = true →
+    l.length = n ∧ ∀ i (h : i < l.length), (l[i]).lfnOrd = n - i
+  | [], n, h => by
+    simp [ordersDescend] at h
+    exact ⟨by simp [h], fun i hi => by simp at hi⟩
+  | s :: rest, n, h => by
+    simp only [ordersDescend, Bool.and_eq_true, bne_iff_ne, ne_eq, beq_iff_eq] at h
+    obtain ⟨⟨hn, hs⟩, hr⟩ := h
+    obtain ⟨hl, hi⟩ := ordersDescend_spec rest (n - 1) hr
+    refine ⟨by simp [hl]; omega, ?_⟩
+    intro i h
+    cases i with
+    | zero => simpa using hs
+    | succ j =>
+      simp only [List.getElem_cons_succ]
+      rw [hi j (by simpa using h)]
+      omega
+
+/-- **`runName_spec`.**  A long-name run the oracles accept for a short entry is complete (its first slot carries
+    `0x40 | n`, `1 ≤ n ≤ 20`, and the run has exactly `n` slots), correctly ordered (`n, n-1, …, 1`), made of long-name
+    slots only, every slot checksummed against the 11 name bytes of THAT short entry, and its name — the units up to
+    the first `0x0000` — has 1 … 255 units.  (C03: "every long-name run is complete, correctly ordered … and
+    checksummed against its short entry".) -/
+theorem runName_spec (run : List Slot) (sfn : Slot) (name : List Nat) (h : runName run sfn = some name) :
+    ∃ first rest n, run = first :: rest ∧ first.lfnOrd = 64 + n ∧ 1 ≤ n ∧ n ≤ 20 ∧ run.length = n ∧
+      (∀ i (hi : i < rest.length), (rest[i]).lfnOrd = n - 1 - i) ∧
+      (∀ s ∈ run, s.attr % 64 = 0x0F) ∧
+      (∀ s ∈ run, s.lfnChk = sfnChecksum sfn.name11) ∧
+      name = cutAtZero (runUnits run) ∧ 1 ≤ name.length ∧ name.length ≤ 255 := by
+  cases run with
+  | nil => simp [runName] at h
+  | cons first rest =>
+    simp only [runName] at h
+    split at h
+    · cases h
+    · rename_i h1
+      split at h
+      · cases h
+      · rename_i h2
+        split at h
+        · cases h
+        · rename_i h3
+          split at h
+          · cases h
+          · rename_i h4
+            split at h
+            · cases h
+            · rename_i h5
+              split at h
+              · cases h
+              · rename_i h6
+                cases h
+                have ho : first.lfnOrd = 64 + first.lfnOrd % 64 := by
+                  by_cases e : first.lfnOrd = 64 + first.lfnOrd % 64
+                  · exact e
+                  · exact absurd e (by simpa using h1)
+                have hd : ordersDescend rest (first.lfnOrd % 64 - 1) = true := by
+                  cases hc : ordersDescend rest (first.lfnOrd % 64 - 1) with
+                  | true => rfl
+                  | false => rw [hc] at h3; simp at h3
+                obtain ⟨hl, hi⟩ := ordersDescend_spec rest _ hd
+                have ha : ∀ s ∈ first :: rest, s.attr % 64 = 0x0F := by
+                  have : (first :: rest).all (fun s => s.attr % 64 == 0x0F) = true := by
+                    cases hc : (first :: rest).all (fun s => s.attr % 64 == 0x0F) with
+                    | true => rfl
+                    | false => rw [hc] at h4; simp at h4
+                  intro s hs
+                  have := List.all_eq_true.mp this s hs
+                  simpa using this
+                have hk : ∀ s ∈ first :: rest, s.lfnChk = sfnChecksum sfn.name11 := by
+                  have : (first :: rest).all (fun s => s.lfnChk == sfnChecksum sfn.name11) = true := by
+                    cases hc : (first :: rest).all (fun s => s.lfnChk == sfnChecksum sfn.name11) with
+                    | true => rfl
+                    | false => rw [hc] at h5; simp at h5
+                  intro s hs
+                  have := List.all_eq_true.mp this s hs
+                  simpa using this
+                refine ⟨first, rest, first.lfnOrd % 64, rfl, ho, by omega, by omega, by simp [hl]; omega, hi, ha, hk, rfl,
+                  by omega, by omega⟩
+
+end FatVerif.Spec
